@@ -421,6 +421,7 @@ class Engine:
         ground = [p for p in self.pc if not _has_quantifier(p)]
         s = z3.Solver()
         s.set("timeout", self.feas_timeout)
+        s.set("rlimit", 2000000)
         s.set("smt.mbqi", False)
         for p in ground:
             s.add(p)
@@ -456,6 +457,7 @@ class Engine:
             return self.feas_cache[key]
         s = z3.Solver()
         s.set("timeout", 1000)
+        s.set("rlimit", 1000000)
         s.set("smt.mbqi", False)
         for p in self.pc:
             if not _has_quantifier(p):
